@@ -247,6 +247,35 @@ Definition p_chain (s m d : uent) (x : Q) : res :=
   | r => r
   end.
 
+(** ** A relaying component between two links with its own units on both sides:
+       generator [s] --> (In declared in [m])  component  (Out declared in [o]) --> consumer [d].
+       The component multiplies the pulled magnitudes by [g] and publishes them either as a quantity
+       labelled [m] ([bare = false]: finam's TimeTrigger with in_info and out_info, g = 1; a component
+       whose output info is [FromInput("In"), FromValue("units", o)]) or as plain numbers meant in its
+       output units [o] ([bare = true]).  Link 1: bare data on an [s] output to an [m] input;
+       link 2: Quantity(g*y, m) resp. bare g*y on an [o] output to a [d] input. *)
+Definition m_relay (c : cache) (s m o d : uent) (bare : bool) (g x : Q) : res * cache :=
+  let '(r1, c1) := m_link c None s m x in
+  match r1 with
+  | RLink _ _ _ _ cv1 y =>
+      let '(r2, c2) := m_link c1 (if bare then None else Some m) o d (g * y) in
+      (match r2 with
+       | RLink us cs xs u cv2 z => RLink us (cv1 || cs) xs u (cv1 || cv2) z
+       | r => r
+       end, c2)
+  | r => (r, c1)
+  end.
+
+Definition p_relay (s m o d : uent) (bare : bool) (g x : Q) : res :=
+  match p_link None s m x with
+  | RLink _ _ _ _ cv1 y =>
+      match p_link (if bare then None else Some m) o d (g * y) with
+      | RLink us cs xs u cv2 z => RLink us (cv1 || cs) xs u (cv1 || cv2) z
+      | r => r
+      end
+  | r => r
+  end.
+
 (** ** Masked arrays: a mask hides cells, it does not change numbers.  (prepare wraps the payload
        with the Info's mask, core.py 73-82; the harness judges every unmasked cell with the scalar ops.) *)
 Fixpoint mask_with (m : list bool) (l : list Q) : list (option Q) :=
@@ -267,7 +296,8 @@ Inductive op :=
 | Link (k : option uent) (a b : uent) (x : Q)
 | ALink (k : option uent) (a d b : uent) (x : Q)    (* link through a unit-changing adapter *)
 | Fill (f a b : uent) (x : Q)                       (* full_like with a foreign-unit fill value, published *)
-| Chain (s m d : uent) (x : Q).                     (* component computing in its input's own units *)
+| Chain (s m d : uent) (x : Q)                      (* component computing in its input's own units *)
+| Relay (s m o d : uent) (bare : bool) (g x : Q).   (* component with own units on both sides *)
 
 Definition step (c : cache) (o : op) : res * cache :=
   match o with
@@ -282,6 +312,7 @@ Definition step (c : cache) (o : op) : res * cache :=
   | ALink k a d b x => m_alink c k a d b x
   | Fill f a b x => m_fill c f a b x
   | Chain s m d x => m_chain c s m d x
+  | Relay s m o d bare g x => m_relay c s m o d bare g x
   end.
 
 (** the answer by dimensional analysis alone: no memo, no history *)
@@ -298,6 +329,7 @@ Definition pure_res (o : op) : res :=
   | ALink k a d b x => p_alink k a d b x
   | Fill f a b x => p_fill f a b x
   | Chain s m d x => p_chain s m d x
+  | Relay s m o d bare g x => p_relay s m o d bare g x
   end.
 
 Fixpoint run (c : cache) (ops : list op) : list res :=
@@ -323,6 +355,7 @@ Definition op_ents (o : op) : list uent :=
   | ALink (Some k) a d b _ => [k; a; d; b]
   | Fill f a b _ => [f; a; b]
   | Chain s m d _ => [s; m; d]
+  | Relay s m o d _ _ _ => [s; m; o; d]
   end.
 Definition ops_ents (ops : list op) : list uent := flat_map op_ents ops.
 
@@ -470,6 +503,15 @@ Definition slacks (o : op) (m : res) : Q * Q :=
       match m with
       | RLink _ _ xs _ _ _ => (s1, slack (uu m0) (uu d) xs + s1 * factor (uu m0) / factor (uu d))
       | _ => (s1, 0)
+      end
+  | Relay s m0 o d bare g x =>
+      let s1 := Qabs g * slack (uu s) (uu m0) x in
+      let t1 := if bare then s1
+                else slack (uu m0) (uu o) (g * convert (uu s) (uu m0) x)
+                     + s1 * factor (uu m0) / factor (uu o) in
+      match m with
+      | RLink _ _ xs _ _ _ => (t1, slack (uu o) (uu d) xs + t1 * factor (uu o) / factor (uu d))
+      | _ => (t1, 0)
       end
   | ALink k a d b x =>
       let s1 := match k with Some k => slack (uu k) (uu a) x | None => 0 end in
